@@ -84,6 +84,9 @@ def _scores(tier):
     out.append(("rolled_chord_on_a_grid_of_480_divisions", lambda: G.build_part("P1", 480, notes=[("r0", 0, 480, "C", None, 4, 1, 1), ("r1", 3, 477, "E", None, 4, 1, 1), ("r2", 6, 474, "G", None, 4, 1, 1),
                                                                                                    ("m0", 480, 480, "D", None, 4, 1, 1), ("f0", 960, 4, "A", None, 4, 1, 1), ("f1", 964, 476, "B", None, 4, 1, 1),
                                                                                                    ("m1", 1440, 480, "C", None, 5, 1, 1), ("lo", 0, 1920, "C", None, 3, 2, 1)])))
+    # an acciaccatura from ABOVE its main note (the grace note has the higher pitch of the two that share the onset), over a lower voice
+    out.append(("with_a_grace_note_from_above", lambda: G.build_part("P1", 4, notes=[("n0", 0, 4, "C", None, 5, 1, 1), ("n1", 4, 4, "C", None, 5, 1, 1), ("n2", 8, 8, "E", None, 5, 1, 1), ("lo", 0, 16, "C", None, 3, 2, 1)],
+                                                                     graces=[("g", 4, "D", None, 5, 1, 1, "n1")])))
     if True:
         out.append(("with_grace", lambda: G.build_part("P1", 4, notes=[("n0", 0, 4, "C", None, 4, 1, 1), ("n1", 4, 4, "D", None, 4, 1, 1), ("n2", 8, 8, "E", None, 4, 1, 1)], graces=[("g", 4, "B", None, 3, 1, 1, "n1")])))
     return out
